@@ -305,6 +305,11 @@ def run(ctx, rep):
                     ident = True
             rep.ob(tok_eq and ident, 'R07.3', pi.path, 'op-assign entry', 'entered only when the next token is `=` and the left side is an identifier '
                    '(token test %s, identifier test %s)' % (tok_eq, ident), pi.loc())
+            # ... and whatever the operator is: `a op= e` exists for every binary operator (a guard that lists operators drops the
+            # forms it forgets: `a %= e` becomes a syntax error)
+            opsel = [c for c in p.constraints if c[0][0] == 'variant' and c[0][2] == 'ast::Operator']
+            rep.ob(not opsel, 'R07.3', pi.path, 'op-assign for every operator', 'the short form is not restricted to some operators (operator tests on the way in: %s)'
+                   % sorted({str(c[1]) for c in opsel}), pi.loc())
     rep.count('op_assign_entries', entered)
 
     # ---- R07.4 else-if -------------------------------------------------------------------------
